@@ -118,6 +118,7 @@ static int vk_fclose(FILE *f) { (void)f; vk_closed++; return 0; }
 /* recorded snprintf calls of the MSF header */
 struct vk_msfline { int len; char type; int check; };
 static struct vk_msfline vk_msf_hdr; static int vk_msf_hdr_seen = 0;
+static int vk_trunc_hdr = 0;   /* the last rendering of the MSF: line did not fit the buffer it was given */
 struct vk_nameline { const char *name; int width, prec, len, check; };
 #ifndef VK_MAXROWS
 #define VK_MAXROWS 4
@@ -160,6 +161,20 @@ static int vk_snprintf(char *dst, size_t size, const char *fmt, ...)
                 pos = vk_cat(dst, (int)size, pos, "  MSF: #  Type: ", 20);
                 if (pos < (int)size - 1) dst[pos] = (char)ty; pos++;
                 pos = vk_cat(dst, (int)size, pos, "  D  Check: #  ..", 20);
+#ifdef VK_TRUNC_DELTA
+                /* the real line is longer than the model's (file name, date, digits): instances with VK_TRUNC_DELTA pretend the
+                 * text needs size + VK_TRUNC_DELTA characters on the FIRST rendering (snprintf's return value = needed length);
+                 * a writer that accepts a return value >= size keeps a truncated line.  A second rendering (after the writer
+                 * enlarged the buffer) needs the same length. */
+                {
+                        static int vk_forced = -1;
+                        if (vk_forced < 0) vk_forced = (int)size + (VK_TRUNC_DELTA);
+                        vk_trunc_hdr = (vk_forced >= (int)size);
+                        va_end(ap);
+                        if (size > 0) dst[pos < (int)size - 1 ? pos : (int)size - 1] = 0;
+                        return vk_forced;
+                }
+#endif
         } else if (fmt[0] == '%' && fmt[1] == 's' && fmt[2] == 0) {
                 const char *s = va_arg(ap, const char *);
                 pos = vk_cat(dst, (int)size, pos, s, 300);
